@@ -383,6 +383,80 @@ def pool_e():
 
 
 # ---------------------------------------------------------------------------
+# pool H: option values of the utilities (well-formed input, every option with boundary arguments)
+
+H_NUM = ['0', '1', '2', '3', '7', '16', '254', '255', '256', '65535', '65536', '4294967295', '4294967296', '-1', '$ff', '0x', '', 'x']
+H_RANGE = ['$-$', '0-0', '0-$', '$-0', '0x10-0x5', '0xffffffff-0xffffffff', '0-0xffffffff', '-', '0', '0-', '-0', '1-2-3', '0x1000-0x1004']
+H_OPTS = {
+    'p2hex': [('-l', H_NUM), ('-r', H_RANGE), ('-R', H_NUM), ('-a', [None]), ('-i', ['0', '1', '2', '3', '-1', '']), ('-m', ['0', '1', '2', '3', '4', '-1', '']),
+              ('-F', ['Default', 'Moto', 'Intel', 'Intel16', 'Intel32', 'MOS', 'Tek', 'DSK', 'Atmel', 'Mico8', 'C', '', 'nosuch']),
+              ('+5', [None]), ('-5', [None]), ('-s', [None]), ('-d', H_RANGE), ('-e', H_NUM), ('-k', [None]), ('-M', ['0', '1', '2', '3', '4', '']),
+              ('-SEGMENT', ['CODE', 'DATA', 'BITDATA', 'NOSUCH', '', '1']), ('-AVRLEN', ['1', '2', '3', '4', '0', '']),
+              ('-CFORMAT', ['dSEl', 'd', '', 'xxxx', 'dSEl' * 20]), ('-f', ['0', '$11', '17,81', '256', '', ',', '$11,$11,$11'])],
+    # p2bin fills the whole range: only ranges of at most 64 KiB (a 4 GiB image is legitimate work, not a hang)
+    'p2bin': [('-l', H_NUM), ('-r', ['$-$', '0-0', '0-$', '$-0', '0x10-0x5', '0xffffffff-0xffffffff', '0-0xffff', '-', '0', '0-', '-0', '1-2-3', '0x1000-0x1004']), ('-f', ['0', '$11', '17,81', '256', '', ',']), ('-s', [None]), ('-k', [None]),
+              ('-m', ['ALL', 'EVEN', 'ODD', 'BYTE0', 'BYTE1', 'BYTE2', 'BYTE3', 'WORD0', 'WORD1', 'BYTE4', '', 'x']),
+              ('-e', H_NUM), ('-S', ['L1', 'B1', 'L2', 'B2', 'L4', 'B4', 'L8', 'B8', 'L0', 'L9', '1', '4', 'X4', '', 'L']),
+              ('-SEGMENT', ['CODE', 'DATA', 'NOSUCH', ''])],
+    'pbind': [('-f', ['0', '$11', '17,81', '256', '', ',', '$11,$11']), ('+f', ['$11'])],
+}
+H_FILES = 4
+
+
+def pool_h():
+    cases = []
+    for tool in sorted(H_OPTS):
+        opts = H_OPTS[tool]
+        for oi, (o, vals) in enumerate(opts):
+            for vi in range(len(vals)):
+                for fi in range(H_FILES):
+                    cases.append(('H', tool, oi, vi, -1, 0, fi))
+        # pairs of options (second one with its first three values)
+        for oi in range(len(opts)):
+            for oj in range(len(opts)):
+                if oi != oj:
+                    for vi in range(min(3, len(opts[oi][1]))):
+                        for vj in range(min(3, len(opts[oj][1]))):
+                            cases.append(('H', tool, oi, vi, oj, vj, (oi + oj + vi) % H_FILES))
+    return cases
+
+
+def case_h(ctx, member):
+    out = ctx.out
+    _, tool, oi, vi, oj, vj, fi = member
+    ctx.write('in.p', base_files()[fi])
+    for n in ('out.p', 'out.bin', 'out.hex'):
+        try:
+            os.unlink(ctx.path(n))
+        except OSError:
+            pass
+    opts = H_OPTS[tool]
+    args = ['in.p', {'p2hex': 'out.hex', 'p2bin': 'out.bin', 'pbind': 'out.p'}[tool]]
+    for (a, b) in ((oi, vi), (oj, vj)):
+        if a < 0:
+            continue
+        o, vals = opts[a]
+        args.append(o)
+        if vals[b] is not None:
+            args.append(vals[b])
+    r = ctx.run(tool, args, timeout=12)
+    out.obs['tool_runs'] += 1
+    out.sets['tools'].add(tool)
+    tag = 'H:%s %s' % (tool, ' '.join(args))
+    if r.timed_out:
+        out.violate('hang:%s:option-value' % tool, '%s: no exit within 12 s and 60 s on a %d-byte well-formed input' % (tag, len(base_files()[fi])))
+        return
+    if r.san:
+        out.violate(r.san, '%s: %s' % (tag, r.err.decode('latin-1')[-600:]))
+        return
+    if r.rc not in TOOL_OK:
+        out.violate('exit-status-undocumented:%s:%s' % (tool, r.rc), tag)
+        return
+    out.sets['tool_statuses'].add('%s:%s' % (tool, r.rc))
+    out.sigs.add(tag)
+
+
+# ---------------------------------------------------------------------------
 # pool F: dasl
 
 N_DASL = 1500
@@ -428,11 +502,11 @@ _POOLS = None
 def pools():
     global _POOLS
     if _POOLS is None:
-        _POOLS = {'A': pool_a(), 'B': pool_b(), 'C': pool_c(), 'D': pool_d(), 'E': pool_e(), 'F': pool_f(), 'G': pool_g()}
+        _POOLS = {'A': pool_a(), 'B': pool_b(), 'C': pool_c(), 'D': pool_d(), 'E': pool_e(), 'F': pool_f(), 'G': pool_g(), 'H': pool_h()}
     return _POOLS
 
 
-QUICK_SAMPLE = {'A': 160, 'B': 700, 'C': 200, 'D': 150, 'E': 700, 'F': 100, 'G': 500}
+QUICK_SAMPLE = {'A': 160, 'B': 700, 'C': 200, 'D': 150, 'E': 700, 'F': 100, 'G': 500, 'H': 600}
 
 
 def plan(tier, seed):
@@ -450,7 +524,7 @@ def plan(tier, seed):
             n = min(QUICK_SAMPLE[k], len(members))
             chosen = rng.sample(members, n)
         # group small members so that one worker call handles a batch (cheap cases)
-        bs = {'A': 1, 'B': 40, 'C': 10, 'D': 20, 'E': 40, 'F': 20, 'G': 40}[k]
+        bs = {'A': 1, 'B': 40, 'C': 10, 'D': 20, 'E': 40, 'F': 20, 'G': 40, 'H': 40}[k]
         for i in range(0, len(chosen), bs):
             cases.append({'pool': k, 'members': chosen[i:i + bs]})
     return cases
@@ -491,8 +565,12 @@ ASL_ENV = {'ASL_VERIF_MAX_LINES': str(LINE_BUDGET), 'ASL_VERIF_MAX_PASSES': str(
 NO_TERM_RE = re.compile(r'\b(while|macro|rept|irp|irpn|irpc|dup|include|function)\b', re.I)
 
 
-def run_asl(ctx, src_name, flags=(), cwd=None):
-    return ctx.run('asl', [src_name, '-o', 'x.p'] + list(flags) + ['-q'], env=ASL_ENV, cwd=cwd, timeout=120)
+# where termination is not claimed a budget stop is only counted: a small budget saves the time of legitimately long loops
+ASL_ENV_NOCLAIM = {'ASL_VERIF_MAX_LINES': str(min(LINE_BUDGET, 300000)), 'ASL_VERIF_MAX_PASSES': str(PASS_CAP)}
+
+
+def run_asl(ctx, src_name, flags=(), cwd=None, claim=True):
+    return ctx.run('asl', [src_name, '-o', 'x.p'] + list(flags) + ['-q'], env=ASL_ENV if claim else ASL_ENV_NOCLAIM, cwd=cwd, timeout=120)
 
 
 def case_a(ctx, member):
@@ -522,10 +600,10 @@ def case_a(ctx, member):
         rounds += 1
         text = '\n'.join(active.get(i, l) for i, l in enumerate(lines))
         ctx.write(name + '.asm', text)
-        r = run_asl(ctx, name + '.asm', flags)
         # mutations can create unbounded repetition counts: termination is only claimed when the mutated lines stay clear of such constructs
         # ... and when the program has no repetition construct at all that a mutated value could feed
         claim = not NO_TERM_RE.search(prog_text) and not any(NO_TERM_RE.search(v) for v in active.values())
+        r = run_asl(ctx, name + '.asm', flags, claim=claim)
         key = judge_asl(out, r, 'A:%s' % name, claim_termination=claim)
         out.obs['mutated_lines_executed'] += len(active)
         if key is None:
@@ -537,7 +615,7 @@ def case_a(ctx, member):
             half = cand[:len(cand) // 2]
             text = '\n'.join((active[i] if i in half else l) for i, l in enumerate(lines))
             ctx.write(name + '.asm', text)
-            r2 = run_asl(ctx, name + '.asm', flags)
+            r2 = run_asl(ctx, name + '.asm', flags, claim=claim)
             k2 = judge_asl(out, r2, 'A:%s' % name, claim_termination=claim)
             if k2 == key:
                 cand = half
@@ -546,7 +624,7 @@ def case_a(ctx, member):
         culprit = cand[0]
         text = '\n'.join((active[i] if i == culprit else l) for i, l in enumerate(lines))
         ctx.write(name + '.asm', text)
-        r3 = run_asl(ctx, name + '.asm', flags)
+        r3 = run_asl(ctx, name + '.asm', flags, claim=claim)
         k3 = judge_asl(out, r3, 'A:%s' % name, claim_termination=claim)
         if k3 == key:
             out.violate(key, '%s line %d mutated (operator %d) to %r: %s' % (name, culprit + 1, op_id, active[culprit][:160],
@@ -717,5 +795,7 @@ def run_case(case, ctx):
             case_f(ctx, member)
         elif k == 'G':
             case_g(ctx, member)
+        elif k == 'H':
+            case_h(ctx, member)
         out.sets['pools'].add(k)
     out.nontrivial = True
